@@ -165,12 +165,82 @@ fn c18_q_intoiter_uvw() { history(tok_new!(Uvw, 0, 1, 2).into_iter(), 3, OPS_ALL
 #[kani::proof]
 #[kani::unwind(11)]
 fn c18_t_intoiter_vec8() { history(ids8!(tok_new, Vec8).into_iter(), 8, OPS_ALL) }
-/// K: fns=Vec16::into_iter,IntoIter::next,IntoIter::next_back,IntoIter::len,IntoIter::size_hint,IntoIter::eq,IntoIter::hash,IntoIter::drop
-/// K: inst=Vec16<Tok> | bound=every history of 17 steps over {next,next_back,len,size_hint,==,hash,stop} ({:?} is in c18_t_observe_vec16), then drop; unwind 19
+/// Arbitrary history of `n + 1` steps over {next, next_back, len, size_hint, stop}, THEN one observation
+/// with ==, hash (and {:?}), then drop. The observers take `&self` and the iterator has no interior
+/// mutability, so observing after every prefix (stop can end the history anywhere) visits the same
+/// (state, observer) pairs as interleaving observers into the history — which is what the harnesses
+/// for N <= 8 do literally, and what does not finish for N >= 16.
+fn history_then_observe<I>(mut it: I, n: usize, with_fmt: bool)
+where
+    I: DoubleEndedIterator<Item = Tok> + ExactSizeIterator + PartialEq + Hash + Debug,
+{
+    let (mut front, mut back) = (0usize, n);
+    let mut step = 0;
+    let mut exhausted_pull = false;
+    while step < n + 1 {
+        let op: u8 = kani::any();
+        kani::assume(op < 5);
+        match op {
+            0 => match it.next() {
+                Some(t) => {
+                    assert!(front < back, "yielded from an empty range");
+                    assert!(t.id as usize == front, "next() yields the front element");
+                    take(t);
+                    front += 1;
+                }
+                None => { assert!(front == back, "None although elements remain"); exhausted_pull = true; }
+            },
+            1 => match it.next_back() {
+                Some(t) => {
+                    assert!(front < back, "yielded from an empty range");
+                    back -= 1;
+                    assert!(t.id as usize == back, "next_back() yields the back element");
+                    take(t);
+                }
+                None => { assert!(front == back, "None although elements remain"); exhausted_pull = true; }
+            },
+            2 => { assert!(it.len() == back - front, "len() = remaining count"); }
+            3 => { assert!(it.size_hint() == (back - front, Some(back - front)), "size_hint() = remaining count"); }
+            _ => break,
+        }
+        step += 1;
+    }
+    let live = (back - front) as u32;
+    let before = observed();
+    assert!(it == it, "an iterator equals itself");
+    assert!(observed() - before == live, "== looks at exactly the live elements");
+    let mut hasher = NullHasher(0);
+    it.hash(&mut hasher);
+    assert!(observed() - before == 2 * live, "hash looks at exactly the live elements");
+    if with_fmt {
+        let _ = write!(NullSink, "{:?}", it);
+        assert!(observed() - before == 3 * live, "{{:?}} looks at exactly the live elements");
+    }
+    kani::cover!(front == back && exhausted_pull, "fully drained and pulled once more");
+    kani::cover!(front == 0 && back == n, "dropped untouched");
+    kani::cover!(front > 0 && back < n, "pulled from both ends");
+    drop(it);
+    check_drops(n, |id| if id < front || id >= back { 0 } else { 1 });
+}
+
+/// K: fns=Vec16::into_iter,IntoIter::next,IntoIter::next_back,IntoIter::len,IntoIter::size_hint,IntoIter::eq,IntoIter::hash,IntoIter::fmt,IntoIter::drop
+/// K: inst=Vec16<Tok> | bound=every history of 17 steps over {next,next_back,len,size_hint,stop}, then ==, hash, {:?} once, then drop; unwind 19
 /// K: asserts=yields match the (front,back) model; len/size_hint = back-front; observers touch exactly the live elements; yielded ids 0 drops, others exactly 1 | cap=1200
 #[kani::proof]
 #[kani::unwind(19)]
-fn c18_t_intoiter_vec16() { history(ids16!(tok_new, Vec16).into_iter(), 16, OPS_NOFMT) }
+fn c18_t_intoiter_vec16() { history_then_observe(ids16!(tok_new, Vec16).into_iter(), 16, true) }
+/// K: fns=Vec32::into_iter,IntoIter::next,IntoIter::next_back,IntoIter::len,IntoIter::size_hint,IntoIter::eq,IntoIter::hash,IntoIter::drop
+/// K: inst=Vec32<Tok> | bound=every history of 33 steps over {next,next_back,len,size_hint,stop}, then == and hash once, then drop; unwind 35
+/// K: asserts=yields match the (front,back) model; len/size_hint = back-front; observers touch exactly the live elements; yielded ids 0 drops, others exactly 1 | cap=1500
+#[kani::proof]
+#[kani::unwind(35)]
+fn c18_t_intoiter_vec32() { history_then_observe(ids32!(tok_new, Vec32).into_iter(), 32, false) }
+/// K: fns=Vec64::into_iter,IntoIter::next,IntoIter::next_back,IntoIter::len,IntoIter::size_hint,IntoIter::eq,IntoIter::hash,IntoIter::drop
+/// K: inst=Vec64<Tok> | bound=every history of 65 steps over {next,next_back,len,size_hint,stop}, then == and hash once, then drop; unwind 67
+/// K: asserts=yields match the (front,back) model; len/size_hint = back-front; observers touch exactly the live elements; yielded ids 0 drops, others exactly 1 | cap=1200
+#[kani::proof]
+#[kani::unwind(67)]
+fn c18_t_intoiter_vec64() { history_then_observe(ids64!(tok_new, Vec64).into_iter(), 64, false) }
 
 /// Reach an arbitrary (front, back) state by `f` front pulls and `b` back pulls (both symbolic),
 /// then observe through `==`, `hash` and `{:?}`, pull once more from an arbitrary end, then drop.
